@@ -14,7 +14,7 @@ use zipora::containers::specialized::{
 use zipora::fsa::cache::{CacheStrategy, FsaCache, FsaCacheConfig};
 
 const HEADER: &str = r#"From ZV.Common Require Import Base Run.
-From ZV.C17 Require Import Spec Model ModelInval ModelBlob.
+From ZV.C17 Require Import Spec Model ModelInval ModelBlob ModelRoute.
 Open Scope N_scope.
 Inductive case_t : Type :=
 | CLru (cap : N) (ops : list (N * N * N)) (expect : list (list Z))
@@ -22,7 +22,9 @@ Inductive case_t : Type :=
 | CPc (ps capbytes : N) (fs : list (N * (N * N))) (ops : list (N * N * N * N)) (expect : list (list N))
 | CPx (ps capbytes : N) (fs : list (N * (N * N))) (ops : list (N * N * N * N)) (expect : list (list N))
 | CPs (ps capbytes : N) (fs : list (N * (N * N))) (ops : list (N * N * N * N)) (expect : list (list N))
-| CBlob (ps capbytes : N) (fs : list (N * (N * N))) (rf vfid strategy : N) (ops : list (N * N * N)) (expect : list (list N)).
+| CBlob (ps capbytes : N) (fs : list (N * (N * N))) (rf vfid strategy : N) (ops : list (N * N * N)) (expect : list (list N))
+| CRr (percap : N) (nshards : nat) (ops : list (N * N * N)) (expect : list (list Z))
+| CTa (percap : N) (nshards : nat) (route : list (N * N)) (tops : list (N * (N * N * N))) (expect : list (list Z)).
 Fixpoint eqb_llz (a b : list (list Z)) : bool :=
   match a, b with
   | [], [] => true
@@ -43,6 +45,8 @@ Definition ok (c : case_t) : bool :=
   | CPx ps capbytes fs ops expect => eqb_lln (px_case ps capbytes fs ops) expect
   | CPs ps capbytes fs ops expect => eqb_lln (ps_case ps capbytes fs ops) expect
   | CBlob ps capbytes fs rf vfid strategy ops expect => eqb_lln (blob_case ps capbytes fs rf vfid strategy ops) expect
+  | CRr percap n ops expect => eqb_llz (rr_case percap n ops) expect
+  | CTa percap n route tops expect => eqb_llz (ta_case percap n route tops) expect
   end.
 "#;
 
@@ -52,6 +56,8 @@ struct Ctx { sum: Summary, shards: CoqShards, terms: Vec<Vec<(String, Value)>>, 
 const T_PX: usize = 3;
 const T_PS: usize = 4;
 const T_BLOB: usize = 5;
+const T_RR: usize = 6;
+const T_TA: usize = 7;
 
 // ---------------------------------------------------------------------------------------------
 // the property, told as dumbly as possible: entries with the time of their last get/put
@@ -235,7 +241,6 @@ fn cmap_history(cx: &mut Ctx, total: usize, nshards: usize, preset: u64, strat: 
     let cell = format!("ConcurrentLruMap/{}", sname);
     let percap = total / nshards.max(1);
     cx.sum.eval(&cell, &format!("cmap {} {} {} {} {:?}", total, nshards, preset, strat, ops), ops.iter().filter(|o| o.0 == 1).count() > percap);
-    if strat != 0 { cx.sum.cell_status(&cell, "S-only"); }
     let cj = json!({"cell": "cmap", "total": total, "nshards": nshards, "preset": preset, "strategy": strat, "nkeys": nkeys, "ops": ops_json(ops)});
     let class: Option<&str> = if strat == 1 && nshards > 1 { Some("concurrent_round_robin_routing") } else { None };
     let log = Rec(Arc::new(Mutex::new(vec![])));
@@ -285,11 +290,144 @@ fn cmap_history(cx: &mut Ctx, total: usize, nshards: usize, preset: u64, strat: 
     }
 }
 
+
+/// RoundRobin routing, one implementation call per operation (every keyed call moves the global counter), compared with the
+/// Coq model of the counter.  The oracle here only demands what holds for any routing: a value returned for a key was put for
+/// that key, the total stays within the capacity, nothing is reported evicted that was never put, no operation fails.
+/// (That get(k) finds the latest put(k) is checked by cmap_history and is the recorded finding.)
+fn rr_history(cx: &mut Ctx, total: usize, nshards: usize, preset: u64, ops: &[Op], force: bool) {
+    let cell = "ConcurrentLruMap/RoundRobin";
+    let percap = total / nshards.max(1);
+    cx.sum.eval(cell, &format!("rr {} {} {} {:?}", total, nshards, preset, ops), ops.iter().filter(|o| o.0 == 1).count() > percap);
+    let cj = json!({"cell": "rr", "total": total, "nshards": nshards, "preset": preset, "ops": ops_json(ops)});
+    let log = Rec(Arc::new(Mutex::new(vec![])));
+    let m = match guarded(|| ConcurrentLruMap::<u64, u64, Rec>::with_config_and_callback(cmap_config(preset, total, nshards, 1), log.clone())) {
+        Ok(Ok(m)) => m,
+        Ok(Err(e)) => { cx.sum.fail(cell, None, cj, &format!("constructor refused a valid configuration: {:?}", e)); return; }
+        Err(p) => { cx.sum.fail(cell, None, cj, &format!("constructor panicked: {}", p)); return; }
+    };
+    let mut put_for: HashMap<u64, Vec<u64>> = HashMap::new();
+    let mut fails: Vec<String> = vec![];
+    let mut obs: Vec<Vec<i128>> = vec![];
+    let mut seen = 0usize;
+    let r = guarded(|| {
+        for &(c, k, v) in ops {
+            let known = |put_for: &HashMap<u64, Vec<u64>>, k: u64, x: Option<u64>| x.map_or(true, |x| put_for.get(&k).map_or(false, |l| l.contains(&x)));
+            let mut o: Vec<i128> = match c {
+                0 => { let g = m.get(&k); if !known(&put_for, k, g) { fails.push(format!("get({}) = {:?}, a value never put for that key", k, g)); } enc_opt(g) }
+                1 => { put_for.entry(k).or_default().push(v);
+                       match m.put(k, v) { Ok(g) => { if !known(&put_for, k, g) { fails.push(format!("put({},{}) returned previous value {:?}, never put for that key", k, v, g)); } enc_opt(g) }
+                                           Err(e) => { fails.push(format!("put({},{}) refused: {:?}", k, v, e)); vec![-1] } } }
+                2 => { let g = m.remove(&k); if !known(&put_for, k, g) { fails.push(format!("remove({}) = {:?}, a value never put for that key", k, g)); } enc_opt(g) }
+                3 => vec![m.contains_key(&k) as i128],
+                4 => { if let Err(e) = m.clear() { fails.push(format!("clear refused: {:?}", e)); }
+                       put_for.clear();   // nothing put before a clear may come back
+                       if m.len() != 0 { fails.push(format!("len() = {} right after clear()", m.len())); }
+                       vec![0] }
+                _ => { let n = m.len(); if n > percap * nshards { fails.push(format!("holds {} entries, capacity {}", n, percap * nshards)); } vec![n as i128] }
+            };
+            let lg = log.0.lock().unwrap();
+            let new_cb: Vec<(u64, u64)> = lg[seen..].to_vec();
+            seen = lg.len();
+            drop(lg);
+            if c != 4 { for (ek, ev) in &new_cb { if !known(&put_for, *ek, Some(*ev)) { fails.push(format!("eviction callback got ({}, {}), never put", ek, ev)); } } }
+            if c == 0 && !new_cb.is_empty() { fails.push(format!("get({}) invoked the eviction callback with {:?}", k, new_cb)); }
+            if c == 1 && new_cb.len() > 1 { fails.push(format!("put({},{}) evicted {} entries", k, v, new_cb.len())); }
+            if c != 2 && c != 4 { for (ek, ev) in new_cb { o.push(ek as i128); o.push(ev as i128); } }
+            obs.push(o);
+        }
+    });
+    if let Err(p) = r { fails.push(format!("panicked: {}", p)); }
+    if let Some(f) = fails.first() { cx.sum.fail(cell, None, cj.clone(), f); }
+    if fails.iter().all(|f| !f.contains("panicked")) && obs.len() == ops.len() && (force || cx.n_x[T_RR] < cx.budget_x[T_RR]) {
+        cx.n_x[T_RR] += 1;
+        cx.terms[T_RR].push((format!("CRr {} {}%nat {} {}", percap, nshards, ops_coq(ops), obs_coq(&obs)), cj));
+    }
+}
+
+/// ThreadAffinity routing: the operations are made by `nthreads` worker threads, one at a time (a sequential history with a
+/// thread per operation).  The shard of a thread is observed (a put on a fresh map from that thread, then shard_sizes()).
+/// Oracle: each shard is an LRU of the per-shard capacity on the operations of the threads that hash to it.
+fn ta_history(cx: &mut Ctx, total: usize, nshards: usize, nthreads: usize, tops: &[(u64, Op)], force: bool) {
+    use std::sync::mpsc::{channel, Receiver, Sender};
+    let cell = "ConcurrentLruMap/ThreadAffinity";
+    let percap = total / nshards.max(1);
+    cx.sum.eval(cell, &format!("ta {} {} {} {:?}", total, nshards, nthreads, tops), tops.iter().filter(|o| o.1 .0 == 1).count() > percap);
+    let cj = json!({"cell": "ta", "total": total, "nshards": nshards, "nthreads": nthreads,
+                    "ops": tops.iter().map(|(t, o)| json!([t, o.0, o.1, o.2])).collect::<Vec<_>>()});
+    let log = Rec(Arc::new(Mutex::new(vec![])));
+    let m = match guarded(|| ConcurrentLruMap::<u64, u64, Rec>::with_config_and_callback(cmap_config(0, total, nshards, 2), log.clone())) {
+        Ok(Ok(m)) => Arc::new(m),
+        Ok(Err(e)) => { cx.sum.fail(cell, None, cj, &format!("constructor refused a valid configuration: {:?}", e)); return; }
+        Err(p) => { cx.sum.fail(cell, None, cj, &format!("constructor panicked: {}", p)); return; }
+    };
+    let mut workers: Vec<(Sender<Op>, Receiver<Result<Vec<i128>, String>>)> = vec![];
+    let mut route: Vec<usize> = vec![];
+    for _ in 0..nthreads.max(1) {
+        let (txo, rxo) = channel::<Op>();
+        let (txr, rxr) = channel::<Result<Vec<i128>, String>>();
+        let m = m.clone();
+        std::thread::spawn(move || {
+            let probe = guarded(|| {
+                let p = ConcurrentLruMap::<u64, u64>::with_config(cmap_config(0, total, nshards, 2)).ok()?;
+                p.put(0, 0).ok()?;
+                p.shard_sizes().iter().position(|&n| n == 1)
+            });
+            let _ = txr.send(match probe { Ok(Some(j)) => Ok(vec![j as i128]), _ => Err("cannot observe the shard of the thread".into()) });
+            while let Ok((c, k, v)) = rxo.recv() {
+                let r = guarded(|| match c {
+                    0 => enc_opt(m.get(&k)),
+                    1 => match m.put(k, v) { Ok(o) => enc_opt(o), Err(_) => vec![-1] },
+                    2 => enc_opt(m.remove(&k)),
+                    3 => vec![m.contains_key(&k) as i128],
+                    4 => match m.clear() { Ok(()) => vec![0], Err(_) => vec![-2] },
+                    _ => vec![m.len() as i128],
+                });
+                if txr.send(r).is_err() { break; }
+            }
+        });
+        match rxr.recv_timeout(std::time::Duration::from_secs(5)) {
+            Ok(Ok(v)) => route.push(v[0] as usize),
+            _ => { cx.sum.fail(cell, None, cj, "cannot observe the shard of a worker thread"); return; }
+        }
+        workers.push((txo, rxr));
+    }
+    let hung = std::cell::Cell::new(false);
+    let call = |t: usize, op: Op| -> Vec<i128> {
+        if hung.get() || workers[t].0.send(op).is_err() { hung.set(true); return vec![-3]; }
+        match workers[t].1.recv_timeout(std::time::Duration::from_secs(5)) { Ok(Ok(v)) => v, Ok(Err(_)) => vec![-4], Err(_) => { hung.set(true); vec![-3] } }
+    };
+    let dec_opt = |v: Vec<i128>| -> Option<u64> { if v.len() == 2 && v[0] == 1 { Some(v[1] as u64) } else { None } };
+    let mut refs: Vec<RefLru> = (0..nshards).map(|_| RefLru::new(percap)).collect();
+    let mut seen = 0usize;
+    let mut fails: Vec<String> = vec![];
+    let mut obs: Vec<Vec<i128>> = vec![];
+    for &(tid, op) in tops {
+        let t = (tid as usize) % workers.len();
+        let j = route[t];
+        let o = step_check(op, &mut refs, &|_| j, &log, &mut seen,
+            &|k| dec_opt(call(t, (0, k, 0))),
+            &|k, v| { let r = call(t, (1, k, v)); if r == vec![-1] { Err("put refused".into()) } else if r[0] < -1 { Err("panicked or hung".into()) } else { Ok(dec_opt(r)) } },
+            &|k| dec_opt(call(t, (2, k, 0))), &|k| call(t, (3, k, 0)) == vec![1],
+            &|| { let r = call(t, (4, 0, 0)); if r == vec![0] { Ok(()) } else { Err("clear refused".into()) } },
+            &|| { let r = call(t, (5, 0, 0)); if r[0] >= 0 { r[0] as usize } else { usize::MAX } }, &mut fails);
+        obs.push(o);
+        if hung.get() { fails.push(format!("thread {} never returned from {:?}", t, op)); break; }
+    }
+    drop(workers);
+    if let Some(f) = fails.first() { cx.sum.fail(cell, None, cj.clone(), f); }
+    if !hung.get() && fails.iter().all(|f| !f.contains("panicked")) && obs.len() == tops.len() && (force || cx.n_x[T_TA] < cx.budget_x[T_TA]) {
+        cx.n_x[T_TA] += 1;
+        let rts = format!("[{}]", route.iter().enumerate().map(|(t, j)| format!("({}, {})", t, j)).collect::<Vec<_>>().join("; "));
+        let tops_coq = format!("[{}]", tops.iter().map(|(t, o)| format!("({}, ({}, {}, {}))", (*t as usize) % route.len(), o.0, o.1, o.2)).collect::<Vec<_>>().join("; "));
+        cx.terms[T_TA].push((format!("CTa {} {}%nat {} {} {}", percap, nshards, rts, tops_coq, obs_coq(&obs)), cj));
+    }
+}
+
 /// ThreadAffinity routing: a value put by one thread must be visible to another thread.
 fn affinity_case(cx: &mut Ctx, nshards: usize, nthreads: usize) {
     let cell = "ConcurrentLruMap/ThreadAffinity";
     cx.sum.eval(cell, &format!("affinity {} {}", nshards, nthreads), true);
-    cx.sum.cell_status(cell, "S-only");
     let cj = json!({"cell": "affinity", "nshards": nshards, "nthreads": nthreads});
     let class = if nshards > 1 { Some("concurrent_thread_affinity_routing") } else { None };
     let r = guarded(|| {
@@ -683,7 +821,8 @@ fn blob_history(cx: &mut Ctx, strategy: u64, preset: u64, capbytes: usize, share
                         let got = get(&store, id, &mut mops, &mut mobs);
                         let inner = store.inner().get(id).ok();
                         let want = shadow.get(&id).cloned();
-                        if got != inner { fails.push(format!("get({}) returned {:?} bytes, the wrapped store returns {:?} bytes", id, got.as_ref().map(|g| g.len()), inner.as_ref().map(|g| g.len()))); }
+                        if got != inner { fails.push(format!("get({}) returned {:?} bytes, the wrapped store returns {:?} bytes{}", id, got.as_ref().map(|g| g.len()), inner.as_ref().map(|g| g.len()),
+                            if got.as_ref().map(|g| g.len()) == inner.as_ref().map(|g| g.len()) { " (different bytes)" } else { "" })); }
                         else if got != want { fails.push(format!("get({}) differs from the bytes put", id)); }
                         let sz = store.size(id).ok().flatten();
                         mops.push(format!("(9, {}, 0)", id)); mobs.push(coq_n_list(match sz { Some(n) => vec![1u128, n as u128], None => vec![0u128] }));
@@ -804,6 +943,11 @@ fn run_one(cx: &mut Ctx, c: &Value) {
     match c["cell"].as_str() {
         Some("lru") => lru_history(cx, u("cap") as usize, u("preset"), u("nkeys"), &parse_ops(&c["ops"]), true),
         Some("cmap") => cmap_history(cx, u("total") as usize, u("nshards") as usize, u("preset"), u("strategy"), u("nkeys"), &parse_ops(&c["ops"]), true),
+        Some("rr") => rr_history(cx, u("total") as usize, u("nshards") as usize, u("preset"), &parse_ops(&c["ops"]), true),
+        Some("ta") => {
+            let tops: Vec<(u64, Op)> = c["ops"].as_array().map(|a| a.iter().filter_map(|o| { let o = o.as_array()?; Some((o.get(0)?.as_u64()?, (o.get(1)?.as_u64()? as u8, o.get(2)?.as_u64()?, o.get(3)?.as_u64()?))) }).collect()).unwrap_or_default();
+            ta_history(cx, u("total") as usize, u("nshards") as usize, u("nthreads") as usize, &tops, true)
+        }
         Some("affinity") => affinity_case(cx, u("nshards") as usize, u("nthreads") as usize),
         Some("threads") => threads_case(cx, u("nshards") as usize, u("iters")),
         Some("pc") => {
@@ -889,6 +1033,25 @@ pub fn run(args: &Args) {
         let strat = if rng.chance(1, 6) { 1 } else if rng.chance(1, 6) { 2 } else { 0 };
         if i < 1 { cx.sum.sample(json!({"cmap": {"total": total, "nshards": nshards, "ops": ops_json(&ops[..ops.len().min(10)])}})); }
         cmap_history(&mut cx, total, nshards, rng.below(3), strat, nkeys, &ops, false);
+    }
+    // extension: round-robin and thread-affinity routing against the model of select_shard
+    for _ in 0..(if th { 2000 } else { 160 }) {
+        let nshards = *rng.pick(&[1usize, 2, 2, 4, 4, 8]);
+        let percap = rng.range(1, 3) as usize;
+        let nkeys = rng.range(2, 6);
+        let n = rng.range(4, 50) as usize;
+        let ops = gen_ops(&mut rng, nkeys, n);
+        rr_history(&mut cx, percap * nshards, nshards, rng.below(3), &ops, false);
+    }
+    rr_history(&mut cx, 8, 4, 0, &[(1, 13, 102), (0, 13, 0)], true);
+    for _ in 0..(if th { 400 } else { 45 }) {
+        let nshards = *rng.pick(&[1usize, 2, 4, 4, 8]);
+        let percap = rng.range(1, 3) as usize;
+        let nthreads = rng.range(1, 4) as usize;
+        let nkeys = rng.range(2, 5);
+        let n = rng.range(4, 40) as usize;
+        let tops: Vec<(u64, Op)> = gen_ops(&mut rng, nkeys, n).into_iter().map(|o| (rng.below(nthreads as u64), o)).collect();
+        ta_history(&mut cx, percap * nshards, nshards, nthreads, &tops, false);
     }
     for n in [1usize, 2, 4, 8] { affinity_case(&mut cx, n, 4); }
     threads_case(&mut cx, 1, if th { 200_000 } else { 20_000 });
@@ -977,6 +1140,9 @@ pub fn run(args: &Args) {
     cx.sum.dist_max("coq_cases_lru", cx.n_lru as u64);
     cx.sum.dist_max("coq_cases_cmap", cx.n_cmap as u64);
     cx.sum.dist_max("coq_cases_page_cache", cx.n_pc as u64);
+    for (t, name) in [(T_PX, "coq_cases_page_cache_rewrite_close"), (T_PS, "coq_cases_single_page_cache"), (T_BLOB, "coq_cases_cached_blob_store"), (T_RR, "coq_cases_round_robin"), (T_TA, "coq_cases_thread_affinity")] {
+        cx.sum.dist_max(name, cx.n_x[t] as u64);
+    }
     finish(&mut cx, args);
 }
 
